@@ -159,7 +159,7 @@ func levelOf(s string) int {
 // Every logged message carries a unique marker «{m<n>}» and ends in « ;end», so a line
 // can be attributed to exactly one call and a torn or merged line is recognisable.
 
-const fillerAlphabet = "abcdefghij klmnopqrst uvwxyz0123456789 ABCDEF:/=.,"
+const fillerAlphabet = "abcdefghij klmnopqrst uvwxyz0123456789 ABCDEF:/=.,%d 100% %s"
 
 func filler(n, seed int) string {
 	b := make([]byte, n)
